@@ -542,12 +542,19 @@ def run_check(check_name: str, tier: str, verif_seed: int, budget_s: float | Non
     max_runs = int(max_runs) if max_runs else None
     print(f"simflox {prop} tier={tier} VERIF_SEED={verif_seed} budget={budget_s:.0f}s procs={procs} PYTHONHASHSEED={os.environ.get('PYTHONHASHSEED')}")
     sys.stdout.flush()
-    # warm JIT / imports in the parent so forked workers inherit them
+    # warm JIT / imports in the parent so forked workers (and the zygote) inherit them
     warm = getattr(check, "warmup", None)
     try:
+        from .zygote import preimport, warm_numbagg
+
+        tw = time.time()
+        preimport()
+        warm_numbagg()
+        print(f"  numbagg kernels JIT-warmed in the parent in {time.time() - tw:.1f}s (outside the budget)")
+        sys.stdout.flush()
         if warm:
             warm()
-        else:
+        if True:
             wt = time.time()
             j = 0
             while time.time() - wt < 4 and j < 6:
